@@ -9,6 +9,7 @@ import (
 	"os/exec"
 	"path/filepath"
 	"runtime"
+	"runtime/pprof"
 	"sort"
 	"strconv"
 	"strings"
@@ -114,6 +115,9 @@ func Main(raceBuild bool) {
 		for _, v := range p.Violations {
 			fmt.Printf("reproduced: kind=%s %s\n", v.Kind, v.What)
 		}
+		if len(p.Inconclusive) > 0 {
+			fmt.Printf("inconclusive: %v notes: %v\n", p.Inconclusive, p.Notes)
+		}
 		if len(p.Violations) > 0 {
 			os.Exit(1)
 		}
@@ -127,6 +131,11 @@ func Main(raceBuild bool) {
 		c.Race = raceBuild
 		c.WorkDir = mkWork(*work, fmt.Sprintf("shard%d", *shard))
 		defer os.RemoveAll(c.WorkDir)
+		if pf := os.Getenv("VERIF_CPUPROFILE"); pf != "" {
+			f, _ := os.Create(fmt.Sprintf("%s.%d", pf, *shard))
+			_ = pprof.StartCPUProfile(f)
+			defer pprof.StopCPUProfile()
+		}
 		if *racePass {
 			if ch.RaceRun != nil {
 				ch.RaceRun(c)
@@ -183,7 +192,8 @@ func runShards(bin string, ch *Check, tier string, seed uint64, n int, work stri
 			var stderr bytes.Buffer
 			cmd.Stderr = &stderr
 			cmd.Stdout = &stderr
-			cmd.Env = append(os.Environ(), "GORACE=halt_on_error=0 log_path="+filepath.Join(work, fmt.Sprintf("race-%d", i)))
+			procs := runtime.NumCPU()/n + 1
+			cmd.Env = append(os.Environ(), fmt.Sprintf("GOMAXPROCS=%d", procs), "GOGC=300", "GORACE=halt_on_error=0 log_path="+filepath.Join(work, fmt.Sprintf("race-%d", i)))
 			done := make(chan error, 1)
 			if err := cmd.Start(); err != nil {
 				results[i] = shardResult{err: err}
